@@ -78,6 +78,24 @@ impl Registry {
     }
 }
 
+/// Autoref specialisation: `(&&Wrap::<T>(..)).reg_url(r, path)` registers the URL check when
+/// `T: TypeUrl` and does nothing otherwise (resolved by the compiler at each concrete type).
+pub struct Wrap<T>(pub std::marker::PhantomData<T>);
+pub trait ViaUrl {
+    fn reg_url(&self, r: &mut Registry, path: &str);
+}
+impl<T: Message + Default + PartialEq + Debug + TypeUrl> ViaUrl for &Wrap<T> {
+    fn reg_url(&self, r: &mut Registry, path: &str) {
+        r.add_url::<T>(path);
+    }
+}
+pub trait ViaNone {
+    fn reg_url(&self, r: &mut Registry, path: &str);
+}
+impl<T> ViaNone for Wrap<T> {
+    fn reg_url(&self, _r: &mut Registry, _path: &str) {}
+}
+
 // ------------------------------------------------------------------ schema
 
 #[derive(Deserialize, Clone, Debug)]
